@@ -210,6 +210,10 @@ def check_nested(case):
             ('{p:[s0,s1],q:3.5,r:s2,m:obj,n:None}', {'p': [s[0], s[1]], 'q': 3.5, 'r': s[2], 'm': marker, 'n': None}, [0, 1, 2],
              lambda r: (type(r) is dict and list(r) == ['p', 'q', 'r', 'm', 'n'] and r['q'] == 3.5 and r['m'] is marker and r['n'] is None and type(r['p']) is list,
                         [r['p'][0], r['p'][1], r['r']])),
+            ("[{index:s0,stock:s1},s2]", [{'index': s[0], 'stock': s[1]}, s[2]], [0, 1, 2],
+             lambda r: (type(r) is list and type(r[0]) is dict and list(r[0]) == ['index', 'stock'], [r[0]['index'], r[0]['stock'], r[1]])),
+            ("{index:s0,other:[s1,s2]}", {'index': s[0], 'other': [s[1], s[2]]}, [0, 1, 2],
+             lambda r: (type(r) is dict and list(r) == ['index', 'other'] and type(r['other']) is list, [r['index'], r['other'][0], r['other'][1]])),
             ('[[s0],[[s1]],txt,s2]', [[s[0]], [[s[1]]], 'txt', s[2]], [0, 1, 2],
              lambda r: (type(r) is list and type(r[0]) is list and type(r[1]) is list and type(r[1][0]) is list and r[2] == 'txt',
                         [r[0][0], r[1][0][0], r[3]])),
